@@ -73,6 +73,8 @@ pub struct MonSource {
     max_ahead: Arc<AtomicUsize>,
     max_after_drop: Arc<AtomicUsize>,
     exceeded: Arc<AtomicBool>,
+    /// the bound was crossed while the consumer still held the iterator
+    exceeded_before_drop: Arc<AtomicBool>,
     dropped: Arc<AtomicBool>,
 }
 
@@ -96,6 +98,7 @@ impl Iterator for MonSource {
                 self.exceeded.store(true, Ordering::SeqCst);
             }
         } else if ahead > self.limit {
+            self.exceeded_before_drop.store(true, Ordering::SeqCst);
             self.exceeded.store(true, Ordering::SeqCst);
         }
         Some(v)
@@ -166,7 +169,7 @@ impl Prop for C09 {
 
     fn rule() -> &'static str {
         "fault point = (stack in {pipe, buffered, pipe+buffered}, W in 1..=4 (chaos: up to 16), \
-         buffer size in {0,1,2,3,8}, k in 0..=8 (chaos: up to 40) items consumed before the consumer \
+         buffer size in {0,1,2,3,8}, k in 0..=8 (10%: up to 60; chaos: up to 40, 25%: up to 300, every third case with a slow consumer) items consumed before the consumer \
          drops the iterator, either after an idle phase (lookahead measured) or in mid-flight (chaos: \
          with slow items around the drop point), upstream endless or just long enough); lanes sched \
          (controller-chosen interleavings at the verif schedule points, strategies as in C05) and \
@@ -258,8 +261,16 @@ impl Prop for C09 {
         } else {
             *[1u8, 2, 2, 3, 4, 4, 8, 16].get(rng.random_range(0..8)).unwrap()
         };
+        // mostly small k (every drop point near the start), sometimes a long consumption phase so
+        // that a lookahead which grows with the number of consumed items crosses the bound
         let k = if controlled {
-            rng.random_range(0..=8)
+            if rng.random_range(0..10) == 0 {
+                rng.random_range(9..=60)
+            } else {
+                rng.random_range(0..=8)
+            }
+        } else if rng.random_range(0..4) == 0 {
+            rng.random_range(41..=300)
         } else {
             rng.random_range(0..=40)
         };
@@ -335,6 +346,7 @@ impl Prop for C09 {
         let max_ahead = Arc::new(AtomicUsize::new(0));
         let max_after_drop = Arc::new(AtomicUsize::new(0));
         let exceeded = Arc::new(AtomicBool::new(false));
+        let exceeded_before_drop = Arc::new(AtomicBool::new(false));
         let dropped = Arc::new(AtomicBool::new(false));
         let src = MonSource {
             i: 0,
@@ -346,6 +358,7 @@ impl Prop for C09 {
             max_ahead: max_ahead.clone(),
             max_after_drop: max_after_drop.clone(),
             exceeded: exceeded.clone(),
+            exceeded_before_drop: exceeded_before_drop.clone(),
             dropped: dropped.clone(),
         };
         let it = build(&c.stack, src, c.threads, c.buffer, vec![], c.slow.clone());
@@ -368,6 +381,8 @@ impl Prop for C09 {
         );
         let k = c.k;
         let idle_first = c.idle_before_drop;
+        // free running only: a consumer that is slower than the producers (every third case)
+        let slow_consumer_us: u64 = if !controlled && c.sseed % 3 == 0 { 30 + c.sseed % 200 } else { 0 };
         let consumer = std::thread::Builder::new()
             .name("consumer".into())
             .spawn(move || {
@@ -381,6 +396,9 @@ impl Prop for C09 {
                             got2.lock().unwrap().push(v);
                             cons2.fetch_add(1, Ordering::SeqCst);
                             s2.consumer_point(Pt::ConsAfterRecvSome, n);
+                            if slow_consumer_us > 0 {
+                                std::thread::sleep(Duration::from_micros(slow_consumer_us));
+                            }
                         }
                         None => {
                             s2.consumer_point(Pt::ConsAfterRecvNone, n);
@@ -486,12 +504,12 @@ impl Prop for C09 {
         }
         let ahead = max_ahead.load(Ordering::SeqCst);
         let pulled_idle = pulled.load(Ordering::SeqCst);
-        if exceeded.load(Ordering::SeqCst) && drop_mark.load(Ordering::SeqCst) == usize::MAX {
+        if exceeded_before_drop.load(Ordering::SeqCst) {
             obs.fail(
-                "lookahead/unbounded-while-idle",
+                "lookahead/exceeds-bound-before-drop",
                 format!(
-                    "{:?} W={} buffer={} k={}: pulled {} items while the consumer had taken {} (bound {limit})",
-                    c.stack, w, b, c.k, pulled_idle, consumed.load(Ordering::SeqCst)
+                    "{:?} W={} buffer={} k={}: at some pull the upstream was {} items ahead of the consumer (bound {limit}); at the end of the idle phase pulled={} consumed={}",
+                    c.stack, w, b, c.k, ahead, pulled_idle, consumed.load(Ordering::SeqCst)
                 ),
             );
         }
@@ -576,7 +594,7 @@ impl Prop for C09 {
         }
         let _ = consumer.join();
         let after = max_after_drop.load(Ordering::SeqCst);
-        if exceeded.load(Ordering::SeqCst) && drop_mark.load(Ordering::SeqCst) != usize::MAX {
+        if exceeded.load(Ordering::SeqCst) && !exceeded_before_drop.load(Ordering::SeqCst) {
             obs.fail(
                 "drop/keeps-pulling",
                 format!(
@@ -595,7 +613,7 @@ impl Prop for C09 {
             obs.check(g.len() == c.k, "prefix-length", || {
                 format!("got {} of {} items", g.len(), c.k)
             });
-        } else {
+        } else if !exceeded.load(Ordering::SeqCst) {
             obs.check(
                 c.upstream.map(|n| n < c.k).unwrap_or(false) || c.upstream == Some(g.len()),
                 "ended-early",
@@ -739,6 +757,7 @@ pub fn child(spec: &str) -> i32 {
         max_ahead: Arc::new(AtomicUsize::new(0)),
         max_after_drop: Arc::new(AtomicUsize::new(0)),
         exceeded: Arc::new(AtomicBool::new(false)),
+        exceeded_before_drop: Arc::new(AtomicBool::new(false)),
         dropped: Arc::new(AtomicBool::new(false)),
     };
     // NOTE: no harness panic hook here: Pipe::new installs the repo's hook, which is the mechanism
@@ -789,6 +808,7 @@ fn check_plain(c: &Case, obs: &mut Obs) {
         max_ahead: max_ahead.clone(),
         max_after_drop: max_after_drop.clone(),
         exceeded: exceeded.clone(),
+        exceeded_before_drop: Arc::new(AtomicBool::new(false)),
         dropped: dropped.clone(),
     };
     let mut it = build(&c.stack, src, c.threads, c.buffer, vec![], vec![]);
